@@ -305,7 +305,7 @@ def place_items(tier):
     out = []
     seeds = corpus.small_slice(max_lines=25)
     if tier != "quick":
-        seeds = sorted(set(seeds) | {s for s in corpus.seed_ids(("fix",)) if len(corpus.lines_of(s)) <= 25})
+        seeds = sorted(set(seeds) | {s for s in corpus.seed_ids(("fix",)) if len(corpus.lines_of(s)) <= 20})
     if tier == "quick":
         seeds = [s for s in seeds if s.startswith("fix/")] + [s for s in seeds if s.startswith("gen/")][::3]
     from .. import layout
@@ -321,7 +321,7 @@ def place_items(tier):
         pos = sorted(set(pos))
         out.append({"id": f"{s}#wrap", "seed": s, "style": None, "cfg": None, "tags": [[0, "-- vsg_off"], [n, "-- vsg_on"]], "shape": "wrap_all", "fixcheck": True})
         for i, j in itertools.combinations(pos, 2):
-            if (j - i) > (3 if tier == "quick" else 6):
+            if (j - i) > (3 if tier == "quick" else 4):
                 continue
             out.append({"id": f"{s}#off@{i}-on@{j}", "seed": s, "style": None, "cfg": None, "tags": [[i, "-- vsg_off"], [j, "-- vsg_on"]], "shape": "pair_bare"})
         rid = corpus.rule_of_seed(s)
@@ -331,7 +331,7 @@ def place_items(tier):
                 out.append({"id": f"{s}#next:{r1}@{i}", "seed": s, "style": None, "cfg": None, "tags": [[i, f"-- vsg_disable_next_line {r1}"]], "shape": "next"})
         for r1 in ids:
             for i, j in itertools.combinations(pos, 2):
-                if (j - i) > (3 if tier == "quick" else 5):
+                if (j - i) > (3 if tier == "quick" else 4):
                     continue
                 out.append({"id": f"{s}#off:{r1}@{i}-on@{j}", "seed": s, "style": None, "cfg": None, "tags": [[i, f"-- vsg_off {r1}"], [j, f"-- vsg_on {r1}"]], "shape": "pair_rule"})
     # rules whose violations carry a multi-line token slice (specs/wide_span_rules.json, derived by tools/wide_span_rules.py):
